@@ -228,6 +228,16 @@ example :
     ∧ ((run .inform [⟨"a", false, 0⟩, ⟨"b", true, 2⟩] [.finish 1, .finish 0, .signal 0, .signal 1, .recv, .recv]).receipts).length = 2 := by
   decide
 
+open Rpcx.FanC in
+/-- **the order is what the verdict rests on**: with workers that signal BEFORE they record (the program
+    of the seeded "report completion first" changes), there is a schedule in which Broadcast reports
+    success although the only contacted server failed, one in which Inform returns no receipt for a
+    server it contacted – which is why `tie_fanout_record_before_signal` is an obligation -/
+theorem signal_first_breaks_broadcast :
+    (runSignalFirst .broadcast [⟨"a", false, 0⟩] [.signal 0, .recv]).ret = some true
+    ∧ (runSignalFirst .inform [⟨"a", true, 1⟩] [.signal 0, .recv]).ret = some true
+    ∧ (runSignalFirst .inform [⟨"a", true, 1⟩] [.signal 0, .recv]).receipts = [] := by decide
+
 /-- the tie of the goroutine-level model: in the CURRENT source each of Broadcast, Fork and Inform starts
     a worker goroutine in which everything that records the outcome (error append, one-time reply copy,
     receipt append) happens before the single completion signal, and the signal is sent on every path –
